@@ -19,7 +19,7 @@ PROP = {
 CLAIM = {
     "engine": "rapid-direct",
     "technique": "stateful property-based testing (rapid) of the real gtxbuf.Buffer against a (base, pending) reference model over generated transition tables, plus porcupine linearizability checking of concurrent histories recorded on the real scheduler",
-    "text": "State/transaction semantics are a generated finite transition table (state x tx type -> next state | invalid). Sequential: 1-40 generated AddTx/Buffered/Rebase calls (applied lists are subsets of the pending list, optionally with transactions that are not pending, permuted, repeated); every return value and error kind is compared with the reference model after every call, every Buffered result is independently replayed on the current base, returned and passed slices are overwritten afterwards to expose aliasing. Concurrent: the same call mix from 2-4 goroutines; the recorded history must linearize against the same model (porcupine) and every snapshot must apply in order on a base that was current during the call. Exploration of generated histories and of the schedules the Go scheduler produced, not a proof.",
+    "text": "State/transaction semantics are a generated finite transition table (state x tx type -> next state | invalid). Sequential: 1-40 generated AddTx/Buffered/Rebase calls, some made by a caller whose own context is cancelled while the buffer is inside the callback (applied lists are subsets of the pending list, optionally with transactions that are not pending, permuted, repeated); every return value and error kind is compared with the reference model after every call, every Buffered result is independently replayed on the current base, returned and passed slices are overwritten afterwards to expose aliasing. Concurrent: the same call mix from 2-4 goroutines; the recorded history must linearize against the same model (porcupine) and every snapshot must apply in order on a base that was current during the call. Exploration of generated histories and of the schedules the Go scheduler produced, not a proof.",
     "design_ref": "DESIGN.md section 4 C19",
     "note": "Schedules are those the Go runtime produces (plus generated Gosched points), not an enumeration; the thorough tier runs the concurrent test under -race. Unwrapped (fatal) addTxFunc errors during Rebase are outside the statement and not generated.",
 }
